@@ -399,4 +399,40 @@ example : writeMpint2 (-128) = .ok [0,0,0,1,0x80] ∧ writeMpint2 128 = .ok [0,0
 example : frame [20, 1, 2, 3] = .ok [0,0,0,12, 7, 20,1,2,3, 0,0,0,0,0,0,0] := by decide +kernel
 example : crcCalc "The quick brown fox jumps over the lazy dog".toUTF8.toList = 0xb9c60808 := by decide +kernel
 
+/-! ### SSH-1 public-key message -/
+
+set_option linter.unusedSimpArgs false in
+/-- **SSH-1 public-key message round trip**: every message with an 8-byte cookie that the writer accepts (32-bit integer fields, mpints whose bit
+    length fits the 16-bit header) is parsed back field by field -/
+theorem pkm_rt (p : Pkm) (bs : Bytes) (hc : p.cookie.length = 8) (h : pkmWrite p = .ok bs) : pkmParse bs = .ok p := by
+  unfold pkmWrite at h
+  cases e1 : writeInt p.skBits with | error e => simp [e1, bind, Except.bind] at h | ok a =>
+  cases e2 : writeMpint1 p.skE with | error e => simp [e1, e2, bind, Except.bind] at h | ok b =>
+  cases e3 : writeMpint1 p.skN with | error e => simp [e1, e2, e3, bind, Except.bind] at h | ok c =>
+  cases e4 : writeInt p.hkBits with | error e => simp [e1, e2, e3, e4, bind, Except.bind] at h | ok d =>
+  cases e5 : writeMpint1 p.hkE with | error e => simp [e1, e2, e3, e4, e5, bind, Except.bind] at h | ok e =>
+  cases e6 : writeMpint1 p.hkN with | error e => simp [e1, e2, e3, e4, e5, e6, bind, Except.bind] at h | ok f =>
+  cases e7 : writeInt p.pflags with | error e => simp [e1, e2, e3, e4, e5, e6, e7, bind, Except.bind] at h | ok g =>
+  cases e8 : writeInt p.cmask with | error e => simp [e1, e2, e3, e4, e5, e6, e7, e8, bind, Except.bind] at h | ok hh =>
+  cases e9 : writeInt p.amask with | error e => simp [e1, e2, e3, e4, e5, e6, e7, e8, e9, bind, Except.bind] at h | ok i =>
+  simp only [e1, e2, e3, e4, e5, e6, e7, e8, e9, bind, Except.bind, pure, Except.pure, Except.ok.injEq] at h
+  subst h
+  unfold pkmParse
+  simp only [Wire.read, List.append_assoc, List.take_left' hc, List.drop_left' hc]
+  rw [u32_rt _ a _ e1]; simp only [bind, Except.bind]
+  rw [mpint1_rt _ b _ e2]; simp only [bind, Except.bind]
+  rw [mpint1_rt _ c _ e3]; simp only [bind, Except.bind]
+  rw [u32_rt _ d _ e4]; simp only [bind, Except.bind]
+  rw [mpint1_rt _ e _ e5]; simp only [bind, Except.bind]
+  rw [mpint1_rt _ f _ e6]; simp only [bind, Except.bind]
+  rw [u32_rt _ g _ e7]; simp only [bind, Except.bind]
+  rw [u32_rt _ hh _ e8]; simp only [bind, Except.bind]
+  have := u32_rt p.amask i [] e9
+  rw [List.append_nil] at this
+  rw [this]
+  simp [pure, Except.pure]
+
+example : pkmWrite { cookie := List.replicate 8 1, skBits := 768, skE := 65537, skN := 12345678901234567890, hkBits := 1024, hkE := 35, hkN := 255,
+                     pflags := 2, cmask := 72, amask := 36 } ≠ .error .struct := by decide
+
 end SshAudit.C10
